@@ -136,7 +136,9 @@ class SerEnv:
         res = exc = None
         try:
             res = fn()
-        except Exception as e:  # only Exception: the property is about failing saves
+        except Exception as e:  # the property is about failing saves
+            exc = e
+        except simstore.SimKeyboardInterrupt as e:   # an injected Ctrl-C (never a real one)
             exc = e
         inflight_at_return = self.sim.loop.inflight
         self.sim.loop.drain()
